@@ -249,7 +249,7 @@ def l2_check(run):
                                 w = unit_walls(f7, u, ws, we)[0 if op[2] == "start_of" else 1]
                                 if w is None:
                                     continue
-                                c = tzdb.classify(zone, w)
+                                c = tzdb.classify_fold(zone, w)
                                 if c == "skipped" and tzdb.classify(zone, w[:3] + [0, 0, 0, 0]) == "skipped" \
                                         and tzdb.classify(zone, w[:3] + [23, 59, 59, 999999]) == "skipped":
                                     c = "whole-day-skipped"
@@ -257,8 +257,8 @@ def l2_check(run):
                                     boundary = c
                         if boundary == "unique":
                             # the implementation goes through the value's own day start / day end
-                            d0 = tzdb.classify(zone, f7[:3] + [0, 0, 0, 0])
-                            d1 = tzdb.classify(zone, f7[:3] + [23, 59, 59, 999999])
+                            d0 = tzdb.classify_fold(zone, f7[:3] + [0, 0, 0, 0])
+                            d1 = tzdb.classify_fold(zone, f7[:3] + [23, 59, 59, 999999])
                             if d0 != "unique":
                                 boundary = "own-day-start-" + d0
                             elif d1 != "unique":
